@@ -39,7 +39,8 @@ def run_case(case, info, modname):
     t0 = time.time()
     py = sys.executable
     env = dict(os.environ)
-    env["PYTHONPATH"] = "/repo:" + ROOT + (":" + env["PYTHONPATH"] if env.get("PYTHONPATH") else "")
+    env["PYTHONPATH"] = os.environ.get("VF_REPO", "/repo") + ":" + ROOT + (":" + env["PYTHONPATH"] if env.get("PYTHONPATH") else "")
+    env.update(case.get("env", {}))
     cmd = [py, "-m", "crosshair", "check", "--report_all", "--per_condition_timeout", str(case["timeout"]),
            "--per_path_timeout", str(max(5, case["timeout"] // 4)), f"{case['file']}:{case['line']}"]
     try:
@@ -65,7 +66,8 @@ def run_case(case, info, modname):
         res["samples"].append({"case": name, "obligation": name, "result": "Confirmed over all paths", "what": case.get("what", name)})
     elif verdict == "counterexample":
         res["obligations"].append({"name": name, "status": "sat", "note": call})
-        res["candidates"].append({"key": f"{info.get('pid', '')}|{name}", "replay": {"kind": "ch", "module": modname, "call": call}})
+        res["candidates"].append({"key": f"{info.get('pid', '')}|{name}", "replay": {"kind": "ch", "module": modname, "call": call,
+                                                                                     "ncoll": case.get("env", {}).get("VF_C11_NCOLL", "2")}})
     else:
         res["obligations"].append({"name": name, "status": "unknown", "note": f"{verdict}: {out.strip()[-300:]}"})
     return res
